@@ -30,7 +30,7 @@ ANCHORS = {'NmVerif.Kernel.createVector/createArray/createMutableArray': 'array:
            'host side': 'functional::get_function_composition, get_function_operands, functional::apply (functor.hpp, function_composition.hpp)'}
 MANIFEST = dict(
     text='Proof: 13 Lean theorems about the kernel body model — create_vector/create_array/device_array round trips from raw (pointer, shape, dim) triples, the guard (global id >= size writes nothing), the closed form of the fold over ANY schedule (order, interleaving, duplication, block size, over-provisioned or partial grid: a cell is final iff some executed thread addressed it, otherwise untouched; never out of bounds) and hence output = flattened host result for every covering launch — tied to the C++ by running the real kernel_helper.hpp + functional extraction/apply on the host for 54 view programs of depth 1..3 (CUDA/HIP/SYCL path: function extraction + device_array operands + fn::apply; OpenCL path: create_array(ptr,shape_ptr,dim) + direct view call), block sizes 1..33, exact..2x grids, five thread orders, duplicated / far / missing threads, against NumPy and the Lean fold on every check.',
-    note='No device in this sandbox: kernel launch, driver API, memory transfer and real hardware scheduling are not exercised; the 1-d launch is modelled as an arbitrary list of (thread, block) pairs executed sequentially (threads write disjoint cells or identical values, so sequential consistency is the only assumption). Lean kernel + propext/Classical.choice/Quot.sound. Known findings (unchanged tree): column-major host operands are re-read row-major on the device path; function extraction is wrong when a view operand is not the first operand; dangling reference in get_function_composition for binary ufuncs over views.',
+    note='No device in this sandbox: kernel launch, driver API, memory transfer and real hardware scheduling are not exercised; the 1-d launch is modelled as an arbitrary list of (thread, block) pairs executed sequentially (threads write disjoint cells or identical values, so sequential consistency is the only assumption). Lean kernel + propext/Classical.choice/Quot.sound. Known findings: column-major host operands are re-read row-major on the device path; function extraction is wrong when a view operand is not the first operand. Repaired: dangling reference in get_function_composition for binary ufuncs over views (regression programs kept, also under ASan in the thorough tier).',
     technique='Lean 4 induction over schedules (List (tid x bid)) + differential correspondence of the host-compilable kernel body')
 ASSUMPTIONS = ['a device launch is equivalent to some sequential execution of its threads (each thread writes one cell; colliding writes carry the same value)',
                'block_id * block_size + thread_id does not wrap in size_t (launch geometry below 2^64 threads)',
@@ -96,7 +96,8 @@ def _progs():
 
     def add(name, group, depth, ref, gen, data='prov', layout='row', nonfirst=False, bview=False, hprog=None):
         # nonfirst: some node of the view tree has a view (non-leaf) operand that is not its first operand
-        # bview:    some broadcasting (binary) ufunc node has a view operand (dangling reference in get_function_composition)
+        # bview:    some broadcasting (binary) ufunc node has a view operand (regression class of the repaired dangling
+        #           reference in get_function_composition, function_composition.hpp:99) — ordinary in-domain programs
         pr[name] = dict(group=group, depth=depth, ref=ref, gen=gen, data=data, layout=layout, nonfirst=nonfirst, bview=bview, hprog=hprog or name)
 
     # ---- depth 1, indexing ----
@@ -344,7 +345,7 @@ def kern_cases(name, shapes, params, scheds, mode, tags=()):
         mreq = 'c13_kern shape=%s res=%s init=%d bsz=%d sched=%s' % (fmt(oshape), fmt(rf), SENTINEL, bsz, fmt_sched(sched))
         oracle = 'ok shape=%s out=%s hosteq=%d' % (fmt(oshape), fmt(out), eq)
         # known-defect regions (oracle is the judge there, the Lean model is not asked)
-        col = pg['layout'] == 'col' or ((pg['nonfirst'] or pg['bview']) and mode == 'dev')
+        col = pg['layout'] == 'col' or (pg['nonfirst'] and mode == 'dev')
         plain = ('asc' in stags and 'exact' in stags and 'dup' not in stags)
         yield Case(req, 'h_c13_g%d' % pg['group'], dom=not col, oracle=oracle, model=not col, mreq=mreq,
                    nontrivial=(n >= 2 and not plain),
@@ -470,18 +471,8 @@ def nonfirst_view_operand(c):
     return a.get('prog', '') in NONFIRST
 
 
-def ufunc_view_operand(c):
-    """extraction path (mode=dev) of a view tree in which a broadcasting binary ufunc has a view operand"""
-    if not c.req.startswith('c13_kern '):
-        return False
-    a = _req_args(c)
-    return a.get('mode') == 'dev' and a.get('prog', '') in BVIEW
-
-
-
 NONFIRST = {pg['hprog'] for pg in PROGS.values() if pg['nonfirst']}
-BVIEW = {pg['hprog'] for pg in PROGS.values() if pg['bview']}
-KNOWN_PREDICATES = {'colmajor_operand': colmajor_operand, 'nonfirst_view_operand': nonfirst_view_operand, 'ufunc_view_operand': ufunc_view_operand}
+KNOWN_PREDICATES = {'colmajor_operand': colmajor_operand, 'nonfirst_view_operand': nonfirst_view_operand}
 
 
 def coverage_extra(cases, tier):
